@@ -84,20 +84,20 @@ theorem C07_eventually (a : ANode) (h : Nat)
 submission (any DA answer list each) and inclusion passes, from a fresh start, preserves: the DA-included height is at
 most the chain height; every mark `key ↦ dh` is the header hash (resp. data commitment) of a stored block whose header
 (resp. signed data) blob the DA double holds **at exactly the DA height `dh`**; and **every reported height
-`1 ≤ h ≤ daInc` is a stored block for which the DA double holds the header blob of a stored block with that header
+`initialHeight ≤ h ≤ daInc` is a stored block for which the DA double holds the header blob of a stored block with that header
 hash, and — unless the data commitment is the empty one — the signed-data blob of a stored non-empty block with that
 data commitment** (`HdrOnDA`, `DataOnDA`; "with that hash / commitment" because marks are keyed by hash / commitment). -/
 theorem C07_sound_every_interleaving (c : Cfg) (hpos : 1 ≤ c.initialHeight) (acts : List Act) :
-    let a := runA c { n := freshNode c } acts
+    let a := runA c (freshA c) acts
     a.daInc ≤ a.n.store.height ∧
     (∀ e ∈ a.hMarks, ∃ k b, k ≤ a.n.store.height ∧ a.n.store.getBlock k = some b ∧ b.sh.hdr.hash = e.1 ∧
       (e.2, false, b.sh.hdr.height) ∈ a.daBlobs) ∧
     (∀ e ∈ a.dMarks, ∃ k b, k ≤ a.n.store.height ∧ a.n.store.getBlock k = some b ∧ b.data.daCommitment = e.1 ∧
       b.data.txs ≠ [] ∧ (e.2, true, dataHeight b) ∈ a.daBlobs) ∧
-    (∀ h, 1 ≤ h → h ≤ a.daInc → ∃ b, a.n.store.getBlock h = some b ∧
+    (∀ h, c.initialHeight ≤ h → h ≤ a.daInc → ∃ b, a.n.store.getBlock h = some b ∧
       (∃ dh, HdrOnDA a b.sh.hdr.hash dh) ∧
       (b.data.daCommitment = emptyDataHash ∨ ∃ dh, DataOnDA a b.data.daCommitment dh)) := by
-  have hg := runA_G (c := c) (a := { n := freshNode c }) (G_fresh c hpos) acts
+  have hg := runA_G (c := c) (a := (freshA c)) (G_fresh c hpos) acts
   exact ⟨hg.incLe, hg.hM, hg.dM, hg.incSound⟩
 
 /-- the same invariant is preserved by every single action from any node that satisfies it -/
@@ -138,7 +138,7 @@ def yCfg : Cfg := { chainId := "w", initialHeight := 1, genesisTime := 100, prop
 and (unless empty) **own** signed-data blob the DA double holds -/
 def C07_sound_by_height_full : Prop :=
   ∀ (c : Cfg) (acts : List Act), 1 ≤ c.initialHeight →
-    ∀ h, 1 ≤ h → h ≤ (runA c { n := freshNode c } acts).daInc → onDA (runA c { n := freshNode c } acts) h = true
+    ∀ h, c.initialHeight ≤ h → h ≤ (runA c (freshA c) acts).daInc → onDA (runA c (freshA c) acts) h = true
 
 /-- blocks 2 and 3 carry the same transaction list, hence the same data commitment; all headers are accepted, of the
 data only that of block 2 (then the submission is cancelled); the inclusion loop runs -/
@@ -153,10 +153,10 @@ and finalized because block 2 has the same commitment.  What does hold for every
 replayed on the real node before it is recorded as a finding. -/
 theorem C07_sound_by_height_fails : ¬ C07_sound_by_height_full := by
   intro h
-  have h1 : (runA yCfg { n := freshNode yCfg } qActs).daInc = 3 ∧
-      (runA yCfg { n := freshNode yCfg } qActs).n.dataWm = 2 ∧
-      onDA (runA yCfg { n := freshNode yCfg } qActs) 3 = false := by decide +kernel
-  have := h yCfg qActs (by decide) 3 (by omega) (by rw [h1.1]; exact Nat.le_refl _)
+  have h1 : (runA yCfg (freshA yCfg) qActs).daInc = 3 ∧
+      (runA yCfg (freshA yCfg) qActs).n.dataWm = 2 ∧
+      onDA (runA yCfg (freshA yCfg) qActs) 3 = false := by decide +kernel
+  have := h yCfg qActs (by decide) 3 (by decide) (by rw [h1.1]; exact Nat.le_refl _)
   rw [h1.2.2] at this
   cases this
 
@@ -172,7 +172,7 @@ def C07_eventually_after_crash_full : Prop :=
 def yRun : List (SeqResp × ExecResp) :=
   [(.batch [] 150 [], .ok), (.batch [[1]] 200 [], .ok), (.batch [[2]] 300 [], .ok)]
 /-- all headers and all data accepted by the DA layer — but the inclusion loop has not run yet -/
-def ySubmitted : ANode := runOps { n := run yCfg (freshNode yCfg) yRun } [.subH [], .subD []]
+def ySubmitted : ANode := runOps { freshA yCfg with n := run yCfg (freshNode yCfg) yRun } [.subH [], .subD []]
 /-- … and the node crashes and restarts (the marks live only in memory until a clean stop) -/
 def yCrashed : Option ANode := restart yCfg ySubmitted ySubmitted.n.store false
 
@@ -234,75 +234,60 @@ theorem C07_eventually_partial {c : Cfg} {a a' : ANode} (h : Nat)
     h ≤ (runOps a' [.incl]).daInc :=
   C07_eventually_after_clean_restart h hr hst hm
 
-/-! ## initial heights above 1 (model-level observation, exposed by the repair of C06 in /repo 6924f89) -/
+/-! ## every initial height ≥ 1 -/
 
-/-- full statement of "eventually", every initial height ≥ 1: on a node reached from a fresh start, if every committed
+/-- the DA-included height of a node reached from a fresh start is at least `initialHeight − 1` (where `NewManager`
+starts it: heights below the initial height do not exist and need no inclusion) and at most the chain height -/
+theorem C07_bounds_every_interleaving (c : Cfg) (hpos : 1 ≤ c.initialHeight) (acts : List Act) :
+    c.initialHeight - 1 ≤ (runA c (freshA c) acts).daInc ∧
+    (runA c (freshA c) acts).daInc ≤ (runA c (freshA c) acts).n.store.height :=
+  ⟨runA_mono c (freshA c) acts, (runA_G (G_fresh c hpos) acts).incLe⟩
+
+/-- "eventually" for every initial height ≥ 1: on a node reached from a fresh start, if every committed
 height `initialHeight ≤ k ≤ h` is stored with its header hash marked and its data commitment empty or marked, one
 iteration of the inclusion loop reports `≥ h` -/
 def C07_eventually_initial_height_full : Prop :=
   ∀ (c : Cfg) (acts : List Act) (h : Nat), 1 ≤ c.initialHeight →
-    (∀ k, c.initialHeight ≤ k → k ≤ h → k ≤ (runA c { n := freshNode c } acts).n.store.height ∧
-      ∃ b, (runA c { n := freshNode c } acts).n.store.getBlock k = some b ∧
-        (markOf (runA c { n := freshNode c } acts).hMarks b.sh.hdr.hash).isSome ∧
+    (∀ k, c.initialHeight ≤ k → k ≤ h → k ≤ (runA c (freshA c) acts).n.store.height ∧
+      ∃ b, (runA c (freshA c) acts).n.store.getBlock k = some b ∧
+        (markOf (runA c (freshA c) acts).hMarks b.sh.hdr.hash).isSome ∧
         (b.data.daCommitment = emptyDataHash ∨
-          (markOf (runA c { n := freshNode c } acts).dMarks b.data.daCommitment).isSome)) →
-    h ≤ (includerIter (runA c { n := freshNode c } acts)).1.daInc
+          (markOf (runA c (freshA c) acts).dMarks b.data.daCommitment).isSome)) →
+    h ≤ (includerIter (runA c (freshA c) acts)).1.daInc
 
-/-- **With an initial height above 1 the DA-included height never leaves 0**: `daIncludedHeight` starts at 0 (only the
-two submission watermarks were moved to `initialHeight − 1`), so the inclusion loop asks `IsDAIncluded(1)`; the chain
-height is ≥ 1 but block 1 does not exist, `GetBlockData` fails and the loop stops ("no more blocks to check") — for every
-interleaving of production, submission (any DA answers) and inclusion passes, for ever
-(`block/da_includer.go:23-30`, `block/manager.go:488-499`).  Before the repair nothing was ever submitted on such a
-chain, so this could not be observed.  Model-level; to be replayed on the real node before it is recorded. -/
-theorem C07_initial_height_above_one_never_reports (c : Cfg) (hih : 2 ≤ c.initialHeight) (acts : List Act) :
-    (runA c { n := freshNode c } acts).daInc = 0 ∧
-    includerIter (runA c { n := freshNode c } acts) = (runA c { n := freshNode c } acts, []) :=
-  ⟨((NoIncl.fresh c hih).run acts).inc, ((NoIncl.fresh c hih).run acts).idle⟩
+/-- **it holds** (until /repo 81db44d `daIncludedHeight` started at 0, the inclusion loop asked for block 1, which does
+not exist on a chain with initial height > 1, and the DA-included height never left 0: finding
+`C07/eventually/initial-height-above-1`, fixed; it was refuted by the witness below) -/
+theorem C07_eventually_initial_height : C07_eventually_initial_height_full := by
+  intro c acts h hpos hm
+  have hlow := (C07_bounds_every_interleaving c hpos acts).1
+  exact C07_eventually _ h (fun k k1 k2 => hm k (by omega) k2)
 
 def v3Cfg : Cfg := { chainId := "w", initialHeight := 3, genesisTime := 100, proposerAddr := [1], key := 1, signerAddr := [1] }
 /-- initial height 3: two blocks (3: the genesis block, 4: one transaction), all headers and data accepted -/
 def v3Acts : List Act :=
   [.produce (.batch [] 150 []) .ok, .produce (.batch [[1]] 200 []) .ok, .subH [], .subD []]
 
-/-- the witness, evaluated by the kernel: watermarks 4/4 at chain height 4, both blocks on the DA layer and marked -/
-theorem v3_facts : (runA v3Cfg { n := freshNode v3Cfg } v3Acts).n.store.height = 4 ∧
-    (runA v3Cfg { n := freshNode v3Cfg } v3Acts).n.hdrWm = 4 ∧ (runA v3Cfg { n := freshNode v3Cfg } v3Acts).n.dataWm = 4 ∧
-    onDA (runA v3Cfg { n := freshNode v3Cfg } v3Acts) 3 = true ∧ onDA (runA v3Cfg { n := freshNode v3Cfg } v3Acts) 4 = true ∧
-    ∀ k ∈ [3, 4], ((runA v3Cfg { n := freshNode v3Cfg } v3Acts).n.store.getBlock k).map (fun b =>
-      (markOf (runA v3Cfg { n := freshNode v3Cfg } v3Acts).hMarks b.sh.hdr.hash).isSome &&
-      (decide (b.data.daCommitment = emptyDataHash) ||
-        (markOf (runA v3Cfg { n := freshNode v3Cfg } v3Acts).dMarks b.data.daCommitment).isSome)) = some true := by
+/-- **The witness that refuted the statement now reports**, evaluated by the kernel: the node starts with the
+DA-included height 2 = `initialHeight − 1` (nothing persisted under `d`); with both blocks on the DA layer and marked one
+inclusion pass finalizes 3 and 4 in order and reports 4 = chain height, persisted. -/
+theorem C07_old_witness_now_reports :
+    (freshA v3Cfg).daInc = 2 ∧ (freshA v3Cfg).n.store.getMeta daIncKey = none ∧
+    (runA v3Cfg (freshA v3Cfg) v3Acts).n.store.height = 4 ∧ (runA v3Cfg (freshA v3Cfg) v3Acts).daInc = 2 ∧
+    onDA (runA v3Cfg (freshA v3Cfg) v3Acts) 3 = true ∧ onDA (runA v3Cfg (freshA v3Cfg) v3Acts) 4 = true ∧
+    (includerIter (runA v3Cfg (freshA v3Cfg) v3Acts)).1.daInc = 4 ∧
+    (includerIter (runA v3Cfg (freshA v3Cfg) v3Acts)).1.finals = [4, 3] ∧
+    (includerIter (runA v3Cfg (freshA v3Cfg) v3Acts)).1.n.store.getMeta daIncKey = some (le64 4) := by
   decide +kernel
 
-/-- **The full statement is false of the model** (initial height 3). -/
-theorem C07_eventually_initial_height_fails : ¬ C07_eventually_initial_height_full := by
-  intro hfull
-  obtain ⟨h1, _, _, _, _, h6⟩ := v3_facts
-  have := hfull v3Cfg v3Acts 4 (by decide) (fun k k1 k2 => by
-    have k1' : 3 ≤ k := k1
-    have hk : k ∈ [3, 4] := by simp; omega
-    have r2 := h6 k hk
-    refine ⟨by rw [h1]; exact k2, ?_⟩
-    cases hb : (runA v3Cfg { n := freshNode v3Cfg } v3Acts).n.store.getBlock k with
-    | none => rw [hb] at r2; simp at r2
-    | some b =>
-      rw [hb] at r2
-      simp only [Option.map_some, Option.some.injEq, Bool.and_eq_true, Bool.or_eq_true, decide_eq_true_eq] at r2
-      exact ⟨b, rfl, r2.1, r2.2⟩)
-  rw [(C07_initial_height_above_one_never_reports v3Cfg (by decide) v3Acts).2] at this
-  have h0 := (C07_initial_height_above_one_never_reports v3Cfg (by decide) v3Acts).1
-  simp only at this
-  omega
+/-- … and `freshA` is what start-up computes on an empty disk; a restart (clean or after a crash) before anything was
+reported starts at `initialHeight − 1` again, after the report at the persisted height -/
+example : restart v3Cfg {} {} true = some (freshA v3Cfg) := restart_empty v3Cfg true
 
-/-- **Partial statement** (everything except the refuted case): initial height 1 -/
-theorem C07_eventually_initial_height_partial (c : Cfg) (h1 : c.initialHeight = 1) (acts : List Act) (h : Nat)
-    (hm : ∀ k, c.initialHeight ≤ k → k ≤ h → k ≤ (runA c { n := freshNode c } acts).n.store.height ∧
-      ∃ b, (runA c { n := freshNode c } acts).n.store.getBlock k = some b ∧
-        (markOf (runA c { n := freshNode c } acts).hMarks b.sh.hdr.hash).isSome ∧
-        (b.data.daCommitment = emptyDataHash ∨
-          (markOf (runA c { n := freshNode c } acts).dMarks b.data.daCommitment).isSome)) :
-    h ≤ (includerIter (runA c { n := freshNode c } acts)).1.daInc :=
-  C07_eventually _ h (fun k k1 k2 => hm k (by omega) k2)
+example : ((restart v3Cfg (freshA v3Cfg) (freshA v3Cfg).n.store false).map (·.daInc)) = some 2 ∧
+    ((restart v3Cfg (includerIter (runA v3Cfg (freshA v3Cfg) v3Acts)).1
+      (includerIter (runA v3Cfg (freshA v3Cfg) v3Acts)).1.n.store false).map (·.daInc)) = some 4 := by
+  decide +kernel
 
 /-! ## non-vacuity -/
 
@@ -331,7 +316,7 @@ example : ((restart yCfg ySubmitted ySubmitted.n.store true).map fun a' => (incl
 
 /-- an interleaving: produce, submit headers through a DA outage, include (block 1 is empty: reported), produce a
 non-empty block, submit headers only, include (not reported: its data is missing) -/
-def yMixed : ANode := runA yCfg { n := freshNode yCfg }
+def yMixed : ANode := runA yCfg (freshA yCfg)
   [.produce (.batch [] 150 []) .ok, .subH [.error, .ok none], .incl, .produce (.batch [[1]] 200 []) .ok, .subH [], .incl]
 
 /-- … then submit data and include: reported, finalized in order -/
